@@ -27,6 +27,30 @@ type ReplayFile struct {
 
 // nativeReplay runs the harness natively (go test -overlay) with the model's inputs.
 func nativeReplay(rep *ReplayFile) string {
+	return classifyReplay(nativeReplayRaw(rep))
+}
+
+func classifyReplay(s string) string {
+	if strings.HasPrefix(s, "error:") {
+		return s
+	}
+	for _, line := range strings.Split(s, "\n") {
+		if strings.HasPrefix(line, "VHREPLAY: ") {
+			return strings.TrimPrefix(line, "VHREPLAY: ")
+		}
+	}
+	if strings.Contains(s, "panic:") || strings.Contains(s, "fatal error:") {
+		i := strings.Index(s, "panic:")
+		if i < 0 {
+			i = strings.Index(s, "fatal error:")
+		}
+		return "panic (process) " + trunc(strings.ReplaceAll(s[i:], "\n", " | "), 300)
+	}
+	return "error: no VHREPLAY line: " + trunc(strings.ReplaceAll(s, "\n", " | "), 400)
+}
+
+// nativeReplayRaw returns the raw output of the native run.
+func nativeReplayRaw(rep *ReplayFile) string {
 	tmp, err := os.MkdirTemp("", "symgo-replay-")
 	if err != nil {
 		return "error: " + err.Error()
@@ -76,20 +100,7 @@ func nativeReplay(rep *ReplayFile) string {
 		cmd.Process.Kill()
 		return "error: replay timeout"
 	}
-	for _, line := range strings.Split(string(out), "\n") {
-		if strings.HasPrefix(line, "VHREPLAY: ") {
-			return strings.TrimPrefix(line, "VHREPLAY: ")
-		}
-	}
-	s := string(out)
-	if strings.Contains(s, "panic:") || strings.Contains(s, "fatal error:") {
-		i := strings.Index(s, "panic:")
-		if i < 0 {
-			i = strings.Index(s, "fatal error:")
-		}
-		return "panic (process) " + trunc(strings.ReplaceAll(s[i:], "\n", " | "), 300)
-	}
-	return "error: no VHREPLAY line: " + trunc(strings.ReplaceAll(s, "\n", " | "), 400)
+	return string(out)
 }
 
 func runReplayCmd(path string) int {
